@@ -9,6 +9,7 @@ Reason(e) ==
          ELSE IF ~SizeLaw(e.kind, e.mtu, e.inlen, e.lens) THEN (IF IgnoresMtu(e.kind) THEN "opus_not_single_fragment" ELSE "fragment_exceeds_mtu")
          ELSE IF ~NonEmptyLaw(e.inlen, e.lens) THEN "empty_fragment"
          ELSE IF ~e.input_unchanged THEN "input_modified"
+         ELSE IF ~e.behind_input_unchanged THEN "wrote_behind_input"      \* the caller's buffer continues behind the input (spare capacity)
          ELSE IF ~e.twin_equal THEN "output_depends_on_overwritten_input"
          ELSE ""
     [] e.ev = "reread" -> IF \E i \in 1..Len(e.unchanged) : ~e.unchanged[i] THEN "returned_fragment_aliases_input" ELSE ""
